@@ -185,10 +185,10 @@ def programs_for(tier, seed):
             lay = ["three", "one", "two", "deep"][(i // 3) % 4]
             form = gen.IMPORT_FORMS[(i // 3) % len(gen.IMPORT_FORMS)]
             # every other skeleton with function-local imports (dds, and a top-level module nothing else imports)
-            p = progs.base_program("c3b%d" % i, layout=lay, import_form=form, entry_data=(i % 2 == 0), local=(i % 6 == 3))
+            p = progs.base_program("c3b%d" % i, layout=lay, import_form=form, entry_data=(i % 2 == 0), local=(i % 6 == 3), setvar=(i % 6 == 0))
             # the variable is sometimes named like a builtin that functions of other modules / programs call
             # (the programs evaluated earlier in the "after_k_other_evaluations" variants do; this one does not)
-            vname = ["V3", "max", "sorted", "format"][(i // 3) % 4]
+            vname = ["V3", "max", "filter", "format"][(i // 3) % 4]
             vid = gen.add_var(p, p["_ids"]["leaf"], vname, list(gen.VAR_KINDS)[i % len(gen.VAR_KINDS)])
             p["order"][p["_ids"]["leaf"]].remove(("var", vid))
             p["order"][p["_ids"]["leaf"]].insert(0, ("var", vid))
